@@ -46,6 +46,10 @@ POOL = {
     "search_en": {"api": "search", "s": "on 12 January 2010 and yesterday", "languages": ["en"], "settings": None},
     "rel_en": {"api": "parse", "s": "yesterday", "languages": ["en"], "settings": None},
     "search_sig": {"api": "search", "s": "on 12 January 2010 and yesterday", "languages": ["en"], "settings": SIG},
+    # language autodetected per call and reported with the hits
+    "search_fr_adl": {"api": "search", "s": "Il est parti le 5 mai 2015, puis revenu le 7 juin 2016.", "languages": None, "settings": None, "adl": True},
+    "search_en_adl": {"api": "search", "s": "She left on May 6th 2004 and came back on March 3rd 2005.", "languages": None, "settings": None, "adl": True},
+    "search_ru_adl": {"api": "search", "s": "Он уехал 5 мая 2015 года и вернулся 7 июня 2016 года.", "languages": ["ru", "en"], "settings": None, "adl": True},
     "ddp_sig": {"api": "ddp", "s": "yesterday", "languages": ["en"], "settings": SIG},
     "ddp_fr": {"api": "ddp", "s": N, "languages": ["fr"], "settings": None},
     # every public entry point that reaches the shared settings must be serialised: get_date_tuple is one of them
@@ -59,7 +63,8 @@ PAIRS = [("fr_sig", "en_sig", False), ("fr_def", "tl_def", False), ("en_def", "e
          ("fr_first", "en_last", False), ("skip_foo", "noskip_foo", False), ("fr_raw", "fr_norm", False),
          ("lim1_en", "lim_fr", True), ("search_en", "rel_en", False), ("search_sig", "ddp_sig", False),
          ("ddp_fr", "tl_def", False), ("jalali", "fr_def", False), ("hijri", "fr_def", False), ("ddp_fr", "ddp_sig", False),
-         ("tuple_fr", "tl_def", False), ("tuple_sig", "en_sig", False), ("tuple_tl", "fr_def", False), ("tuple_fr", "tuple_tl", False)]
+         ("tuple_fr", "tl_def", False), ("tuple_sig", "en_sig", False), ("tuple_tl", "fr_def", False), ("tuple_fr", "tuple_tl", False),
+         ("search_fr_adl", "search_en_adl", False), ("search_ru_adl", "search_en_adl", False), ("search_fr_adl", "fr_def", False)]
 
 
 def explore(ctx, a, b, cold, points, budget, tbudget, fork=False):
